@@ -304,6 +304,12 @@ func vIDs(extra int) {
 		for j := 0; j < nreq; j++ {
 			vConnFeed(nc, vWire(refEnvelope(int64(10*(i+1)+j), refDeleteOp(), nil)))
 		}
+		if vBool(fmt.Sprintf("idle%d", i)) {
+			vConnFeedBlock(nc) // stays connected while later clients arrive
+		}
+		if vBool(fmt.Sprintf("acceptErrorBefore%d", i)) {
+			vEnvAcceptTempErr() // e.g. out of descriptors: Accept fails once, then works again
+		}
 		vEnvAccept(nc)
 		ncs = append(ncs, nc)
 	}
@@ -503,8 +509,12 @@ func H_C17_ready() {
 			}
 		}()
 	}
+	var runOpts []Option
+	if vBool("withTLS") {
+		runOpts = append(runOpts, WithTLSConfig(vTLSConfig()))
+	}
 	go func() {
-		v.runErr = v.s.Run(addrs[ai])
+		v.runErr = v.s.Run(addrs[ai], runOpts...)
 		v.ranRun = true
 		vEvent("Run.return")
 	}()
